@@ -92,3 +92,19 @@ def run(chk, rng, quick):
     for (case, step, a), m in zip(recs, res):
         if m != a:
             chk.disagree("dqn_choice", {"case": case, "step": step, "impl": a, "model": m})
+
+
+def run_tabular(chk, rng, quick):
+    """tabular loops with epsilon = 0 on the scripted discrete environment (self-transitions and changing arg-max rows occur)"""
+    import tabruns
+    for name in ("q_learning", "sarsa", "monte_carlo"):
+        for _ in range(3 if quick else 30):
+            script = [(int(rng.choice([3, 5, 8])), str(rng.choice(["term", "trunc"]))) for _ in range(3)]
+            ns, na, total = int(rng.choice([2, 3])), int(rng.choice([2, 3])), int(rng.choice([12, 20]))
+            res = tabruns.run(name, ns, na, script, total, seed=int(rng.integers(0, 1000)), epsilon=0.0)
+            case = {"routine": "train_" + name, "script": script, "total_timesteps": total, "n_states": ns, "n_actions": na, "epsilon": 0.0}
+            chk.case(("tab-greedy", str(case)))
+            chk.count("tabular_greedy_runs")
+            bad = None if res["raised"] else tabruns.check_greedy(res)
+            if bad:
+                chk.fail(f"C13:train_{name}:greedy-action", "tabular routine: " + bad[0], {"case": case, **bad[1]})
